@@ -1,167 +1,11 @@
 import Influx.Proto
 import Influx.Model.Tenant
+import Influx.Model.TenantWire
 import Influx.Spec.C30
 
-open Influx Influx.Proto Influx.Tenant
+open Influx Influx.Proto Influx.Tenant Influx.Tenant.Wire
 
 namespace Influx.Drv.C30
-
-/-! ### parsing operations -/
-
-def maxID : Nat := 2 ^ 64
-
-def parseID (s : String) : Option Nat :=
-  match s.toNat? with
-  | some n => if n < maxID && s.length ≤ 20 && s.toList.all Char.isDigit then some n else none
-  | none => none
-
-/-- a name token: hex of an ASCII string -/
-def parseName (s : String) : Option String :=
-  match hexDecode s with
-  | some bs => if bs.all (· < 128) then some (String.ofList (bs.map Char.ofNat)) else none
-  | none => none
-
-def parseOptName (s : String) : Option (Option String) :=
-  if s = "~" then some none else (parseName s).map some
-
-def parseOp : List String → Option Op
-  | ["co", n, u] => do some (.co (← parseName n) (← parseID u))
-  | ["uo", i, n] => do some (.uo (← parseID i) (← parseOptName n))
-  | ["do", i] => do some (.dO (← parseID i))
-  | ["cb", o, n, t] => do
-    let sys ← if t = "s" then some true else if t = "u" then some false else none
-    some (.cb (← parseID o) (← parseName n) sys)
-  | ["ub", i, n] => do some (.ub (← parseID i) (← parseOptName n))
-  | ["db", i] => do some (.db (← parseID i))
-  | ["cu", n, i] => do some (.cu (← parseName n) (← parseID i))
-  | ["uu", i, n] => do some (.uu (← parseID i) (← parseOptName n))
-  | ["du", i] => do some (.du (← parseID i))
-  | ["cm", r, u, rt, ut] => do
-    let rt ← if rt = "o" then some true else if rt = "b" then some false else none
-    let ut ← if ut = "o" then some true else if ut = "m" then some false else none
-    some (.cm (← parseID r) (← parseID u) rt ut)
-  | ["dm", r, u] => do some (.dm (← parseID r) (← parseID u))
-  | ["fo", n] => do some (.fo (← parseName n))
-  | ["fb", o, n] => do some (.fb (← parseID o) (← parseName n))
-  | ["fu", n] => do some (.fu (← parseName n))
-  | ["lb", o] => do some (.lb (← parseID o))
-  | ["idgen", g, n] => do
-    let g ← if g = "o" then some Gen.org else if g = "b" then some Gen.bkt else if g = "u" then some Gen.user else none
-    some (.idgen g (← parseID n))
-  | ["dump"] => some .dump
-  | _ => none
-
-/-! ### rendering answers (the Go harness sorts by raw kv key; so do we) -/
-
-def strLe (a b : String) : Bool := !(decide (b < a))
-
-def sortBy {α : Type} (le : α → α → Bool) (xs : List α) : List α := xs.mergeSort le
-
-def errStr : Err → String
-  | .nf => "err nf" | .cf => "err cf" | .inv => "err inv" | .int => "err int"
-
-def hexN (s : String) : String := stringToHex s
-def bflag (b : Bool) (t f : String) : String := if b then t else f
-
-def sect (name : String) (items : List String) : String := name ++ "=" ++ joinComma items
-
-def renderDump (d : Dump) : String :=
-  let orgs := sortBy (fun a b => a.1 ≤ b.1) d.orgs
-  let orgIdx := sortBy (fun a b => strLe a.1 b.1) d.orgIdx
-  let bkts := sortBy (fun a b => a.1 ≤ b.1) d.bkts
-  let bktIdx := sortBy (fun a b => a.1.1 < b.1.1 || (a.1.1 = b.1.1 && strLe a.1.2 b.1.2)) d.bktIdx
-  let users := sortBy (fun a b => a.1 ≤ b.1) d.users
-  let userIdx := sortBy (fun a b => strLe a.1 b.1) d.userIdx
-  let urms := sortBy (fun a b => a.1.1 < b.1.1 || (a.1.1 = b.1.1 && a.1.2 ≤ b.1.2)) d.urms
-  let urmIdx := sortBy (fun a b => a.1.1 < b.1.1 || (a.1.1 = b.1.1 &&
-      (a.1.2.1 < b.1.2.1 || (a.1.2.1 = b.1.2.1 && a.1.2.2 ≤ b.1.2.2)))) d.urmIdx
-  " ".intercalate [
-    sect "O" (orgs.map fun (k, i, n) => s!"{k}:{i}:{hexN n}"),
-    sect "OI" (orgIdx.map fun (k, i) => s!"{hexN k}:{i}"),
-    sect "B" (bkts.map fun (k, i, b) => s!"{k}:{i}:{b.org}:{hexN b.name}:{bflag b.sys "s" "u"}"),
-    sect "BI" (bktIdx.map fun ((o, n), i) => s!"{o}:{hexN n}:{i}"),
-    sect "U" (users.map fun (k, i, n) => s!"{k}:{i}:{hexN n}"),
-    sect "UI" (userIdx.map fun (k, i) => s!"{hexN k}:{i}"),
-    sect "M" (urms.map fun ((r, u), (r', u'), m) => s!"{r}:{u}:{r'}:{u'}:{bflag m.rtypeOrg "o" "b"}:{bflag m.owner "o" "m"}"),
-    sect "MI" (urmIdx.map fun ((u, r, u2), (vr, vu)) => s!"{u}:{r}:{u2}:{vr}:{vu}"),
-    sect "P" ((sortBy (fun a b => a ≤ b) d.pws).map toString)]
-
-def render : Ans → String
-  | .err e => errStr e
-  | .ok => "ok"
-  | .okId i => s!"ok {i}"
-  | .foundOrg i n => s!"ok {i} {hexN n}"
-  | .foundBkt i o n => s!"ok {i} {o} {hexN n}"
-  | .foundUser i n => s!"ok {i} {hexN n}"
-  | .ids xs => "ok " ++ showNats (sortBy (fun a b => a ≤ b) xs)
-  | .dump d => renderDump d
-
-/-! ### parsing observed answers -/
-
-def parseErr : String → Option Err
-  | "nf" => some .nf | "cf" => some .cf | "inv" => some .inv | "int" => some .int | _ => none
-
-def fields (s : String) : List String := s.splitOn ":"
-
-def parseSect (name : String) (tok : String) : Option (List (List String)) :=
-  match tok.splitOn "=" with
-  | [n, body] => if n = name then some ((splitComma body).map fields) else none
-  | _ => none
-
-def parseFlag (s t f : String) : Option Bool :=
-  if s = t then some true else if s = f then some false else none
-
-def parseDump (toks : List String) : Option Dump :=
-  match toks with
-  | [o, oi, b, bi, u, ui, m, mi, p] => do
-    let orgs ← (← parseSect "O" o).mapM fun
-      | [k, i, n] => do some ((← parseID k), (← parseID i), (← parseName n))
-      | _ => none
-    let orgIdx ← (← parseSect "OI" oi).mapM fun
-      | [k, i] => do some ((← parseName k), (← parseID i))
-      | _ => none
-    let bkts ← (← parseSect "B" b).mapM fun
-      | [k, i, og, n, t] => do
-        some ((← parseID k), (← parseID i), (⟨← parseID og, ← parseName n, ← parseFlag t "s" "u"⟩ : BucketRec))
-      | _ => none
-    let bktIdx ← (← parseSect "BI" bi).mapM fun
-      | [og, n, i] => do some (((← parseID og), (← parseName n)), (← parseID i))
-      | _ => none
-    let users ← (← parseSect "U" u).mapM fun
-      | [k, i, n] => do some ((← parseID k), (← parseID i), (← parseName n))
-      | _ => none
-    let userIdx ← (← parseSect "UI" ui).mapM fun
-      | [k, i] => do some ((← parseName k), (← parseID i))
-      | _ => none
-    let urms ← (← parseSect "M" m).mapM fun
-      | [r, us, r', u', rt, ut] => do
-        some (((← parseID r), (← parseID us)), ((← parseID r'), (← parseID u')),
-              (⟨← parseFlag rt "o" "b", ← parseFlag ut "o" "m"⟩ : UrmRec))
-      | _ => none
-    let urmIdx ← (← parseSect "MI" mi).mapM fun
-      | [us, r, u2, vr, vu] => do
-        some (((← parseID us), (← parseID r), (← parseID u2)), ((← parseID vr), (← parseID vu)))
-      | _ => none
-    let pws ← (← parseSect "P" p).mapM fun
-      | [k] => parseID k
-      | _ => none
-    some { orgs, orgIdx, bkts, bktIdx, users, userIdx, urms, urmIdx, pws }
-  | _ => none
-
-def parseAns (op : Op) (s : String) : Option Ans :=
-  match tokens s with
-  | ["err", e] => (parseErr e).map .err
-  | "ok" :: rest =>
-    match op, rest with
-    | .cm .., [] | .dm .., [] | .idgen .., [] => some .ok
-    | .fo _, [i, n] => do some (.foundOrg (← parseID i) (← parseName n))
-    | .fu _, [i, n] => do some (.foundUser (← parseID i) (← parseName n))
-    | .fb .., [i, o, n] => do some (.foundBkt (← parseID i) (← parseID o) (← parseName n))
-    | .lb _, [xs] => (parseNats xs).map .ids
-    | .co .., [i] | .uo .., [i] | .dO _, [i] | .cb .., [i] | .ub .., [i] | .db _, [i]
-    | .cu .., [i] | .uu .., [i] | .du _, [i] => (parseID i).map .okId
-    | _, _ => none
-  | toks => if op = .dump then (parseDump toks).map .dump else none
 
 /-! ### driver -/
 
